@@ -3,6 +3,7 @@
 from __future__ import annotations
 
 import importlib
+import os
 import sys
 import time
 import traceback
@@ -10,6 +11,8 @@ import warnings
 
 from . import common
 from .common import Judge, Skip
+
+SKM_DIR = os.path.realpath(os.path.join(common.REPO, "src", "skmatter"))
 
 
 def load_prop(pid):
@@ -25,8 +28,16 @@ def run_case(prop, case):
             prop.run(case, j)
     except Skip as s:
         j.skip(s.reason)
-    except Exception:
-        j.harness_error = traceback.format_exc()[-2500:]
+    except Exception as e:
+        # an exception that travelled through skmatter code is the library failing on an input the
+        # property covers (the harness did not expect it): a failed judgment, not a harness error
+        frames = traceback.extract_tb(e.__traceback__)
+        lib = [f for f in frames if os.path.realpath(f.filename).startswith(SKM_DIR)]
+        if lib:
+            where = [f"{os.path.basename(f.filename)}:{f.lineno}:{f.name}" for f in frames][-5:]
+            j.fail("exception:escaped-the-library", {"type": type(e).__name__, "msg": str(e)[:300], "where": where})
+        else:
+            j.harness_error = traceback.format_exc()[-2500:]
     rec = j.record()
     rec["t"] = round(time.perf_counter() - t0, 4)
     return rec
